@@ -41,7 +41,7 @@ RULE = (
     "restriction lengths {16,17,100}, seed {1}, no scale / repeat call (thorough: lengths {16,17,100,1000}, all "
     "seeds, c=0.3). Dense family: a ramp spectrum on a 0..6 Hz grid (energy at and beyond fs/2) x rates "
     "{0.5,0.7,1,2.5,3.3,10} (thorough: +1.28) x EVERY length 8..260 (thorough: 8..520) x components {z,w} "
-    "(thorough: all six, and the 1D spectrum as well) x seed {1}. A member is non-trivial when the reference variance of that "
+    "(thorough: all six, and the 1D spectrum with {z,w}) x seed {1}. A member is non-trivial when the reference variance of that "
     "component is > 0 (resampled spectrum has energy at some k>=1 and the component's direction factor is not "
     "zero); distinct = distinct (spectrum, fs, nfft, component, seed) - an odd length and the even length below "
     "it are the same case."
@@ -173,7 +173,8 @@ def units(tier):
             for h in range(0, len(lengths), 128):
                 chunk = lengths[h:h + 128]
                 u = {"name": f"dense:{kind}:Wramp:fs{rate}:n{chunk[0]}-{chunk[-1]}", "kind": kind, "grid": "W", "shape": "ramp",
-                     "fs": rate, "lengths": chunk, "components": comps, "seeds": [1], "scales": [], "repeat": False,
+                     "fs": rate, "lengths": chunk, "components": comps if kind == "2d" else ["z", "w"], "seeds": [1],
+                     "scales": [], "repeat": False,
                      "family": "dense", "cost": 2}
                 u.update(extra)
                 us.append(u)
